@@ -2,7 +2,9 @@
      e <32|64> <fixsub> <c_use> <est|x> <image hex>   -> "<result hex>" | "ERR"      (x: exact floor(log2) as the estimate)
      d <32|64> <c_use> <bits hex>                      -> "<image hex of the decoded value>" | "nan" | "ERR"
      U <fixsel> <checked> <sz> <sg> <sl> <dl> <m2> <use> -> "<checked'> <C_use_ieee754>"
-     K <fixsel> <sz> <sg> <sl> <dl> <m2>               -> "<check_C_ieee754_compliance>"                                   *)
+     K <fixsel> <sz> <sg> <sl> <dl> <m2>               -> "<check_C_ieee754_compliance>"
+     COL <w> <pattern hex>...                          -> octets of the compressed column (IeeeCol.ieee_col_enc)
+     COLR <w> <n> <a> <b> <octets hex>                 -> patterns of subsets a..b (IeeeCol.ieee_col_dec_range)           *)
 let zhex (s : string) : z = match n_of_hex s with N0 -> Z0 | Npos p -> Zpos p
 let hex_of_z (x : z) : string = match x with Z0 -> "0" | Zpos p -> hex_of_n (Npos p) | Zneg _ -> "NEG"
 let fmt_of w = if w = "32" then fmt32 else fmt64
@@ -23,5 +25,13 @@ let () = iter_lines (fun line ->
     Printf.printf "%d %d\n" (int_of_z c) (if u then 1 else 0)
   | ["K"; fixsel; sz; sg; sl; dl; m2] ->
     print_endline (if check_compliance (b fixsel) (b sz) (b sg) (b sl) (b dl) (b m2) then "1" else "0")
+  | "COL" :: w :: vals ->        (* compressed 2 09 YYY column: Section 4 octets (zero padded) of IeeeCol.ieee_col_enc *)
+    let bits = ieee_col_enc (nat_of_int (int_of_string w)) (List.map n_of_hex vals) in
+    let pad = (8 - (List.length bits) mod 8) mod 8 in
+    print_endline (hex_of_bytes (bits_to_bytes (bits @ List.init pad (fun _ -> false))))
+  | "COLR" :: w :: n :: a :: bb :: [octets] ->   (* range decoder on Section 4 octets: the patterns of subsets a..b *)
+    (match ieee_col_dec_range (nat_of_int (int_of_string w)) (nat_of_int (int_of_string n)) (nat_of_int (int_of_string a)) (nat_of_int (int_of_string bb)) (bytes_to_bits (bytes_of_hex octets)) with
+     | None -> print_endline "ERR"
+     | Some (vs, _) -> print_endline (String.concat " " (List.map hex_of_n vs)))
   | [] -> print_newline ()
   | _ -> failwith ("bad line: " ^ line))
